@@ -362,6 +362,12 @@ func targeted() []Spec {
 		// self-destruct clean-up through both conversion messages, pair with two denominations
 		{ID: -13, Ops: []Op{coin(""), {K: "regerc20", A: "@0"}, sup("dcoin"), {K: "addcoin", A: "@0", MD: simpleMD("dcoin", "dcoin")}, {K: "destroy", A: "@0"}, {K: "convcoin", A: "dcoin"},
 			coin(""), {K: "regerc20", A: "@1"}, {K: "destroy", A: "@1"}, {K: "converc20", A: "@1", B: "@den1"}}},
+		// genesis pairs whose contract is NOT spelled in EIP-55 form (lower case, no prefix): ids hash the spelling as
+		// written; the pairs stay reachable, can be toggled, extended and moved to a new contract
+		{ID: -16, Ops: []Op{{K: "genesis", Pairs: []GPair{{Text: "@0l", Denoms: []string{"acoin", "bcoin"}, Enabled: true, Owner: 2}, {Text: "@1n", Denoms: []string{"ccoin"}, Enabled: true, Owner: 1}},
+			Metas: []MD{{Base: "acoin", Name: "acoin", Symbol: "CN", Display: "coin", Desc: "@desc0", Units: []Unit{unit("acoin", 0), unit("coin", 18)}}}},
+			{K: "toggle", A: "acoin"}, {K: "toggle", A: "@0"}, {K: "convcoin", A: "bcoin"}, sup("dcoin"), {K: "addcoin", A: "@1u", MD: simpleMD("dcoin", "dcoin")},
+			coin(""), {K: "update", A: "@0u", B: "@2"}, {K: "converc20", A: "@2", B: "bcoin"}}},
 		// EqualMetadata's pointer comparison: after the clean-up the metadata of dcoin stays, so an identical
 		// second registration (RegisterCoin and AddCoin) is refused by verifyMetadata
 		{ID: -15, Ops: []Op{sup("dcoin"), {K: "regcoin", MD: simpleMD("dcoin", "dcoin")}, {K: "destroy", A: "@0"}, {K: "convcoin", A: "dcoin"},
